@@ -419,6 +419,11 @@ def concretize(spec, name, vals, top=True):
 
 def try_replay(contract, registry, case, ob, with_models=True):
     """Turn counter-models into inputs, run engine-concrete and the real function, evaluate the clause."""
+    opq = getattr(contract, "opaque", None) or {}
+    if any(sp.get("effect") for sp in opq.values()) and any(n in opq for n in ("open", "emit.file", ".write")):
+        # a contract about file-system effects is never run for real on made-up arguments: its counter-models stay unconfirmed (an obligation that was discharged
+        # on the unchanged tree is then reported with no-failing-input-found; the generated-project harness is where such a change shows with a real input)
+        return {"confirmed": False, "skipped": "contract over file-system effects: not executed on made-up file names"}
     builder = getattr(contract, "witness", None)
     tried = []
     generic_done = False
